@@ -170,6 +170,12 @@ impl<const N: usize> CobsAccumulator<N> {
         }
     }
 
+    /// Read-only view of the bytes accumulated so far (verification hook).
+    #[cfg(feature = "verif-hooks")]
+    pub fn verif_buffered(&self) -> &[u8] {
+        &self.buf[..self.idx]
+    }
+
     /// Extend the internal buffer with the given input.
     ///
     /// # Panics
